@@ -273,7 +273,7 @@ fn c03_small_leaves() {
     assert!(expect_char(s, c) == (len > 0 && s[0] == c));
 }
 
-//@ unit c03_write_u32 q23=1 prop=C03,C04 chunks=range:1:8/range:1:10 quick=all unwind=13 mem=3 timeout=1200/7200 stubs=crate::util::try_format=>crate::verif_support::stub_try_format bound="every u32 with the number of decimal digits given by the parameter (quick: 1..=8 digits, thorough: 1..=10 = every u32) x every width 1..=10: decimal digits, zero-padded to the width, never truncated, no panic"
+//@ unit c03_write_u32 q23=1 prop=C03,C04 chunks=range:1:7/range:1:10 quick=all unwind=13 mem=3 timeout=1200/7200 stubs=crate::util::try_format=>crate::verif_support::stub_try_format bound="every u32 with the number of decimal digits given by the parameter (quick: 1..=7 digits, thorough: 1..=10 = every u32) x every width 1..=10: decimal digits, zero-padded to the width, never truncated, no panic"
 fn c03_write_u32(nd: u32) {
     let v: u32 = kani::any();
     let width: usize = kani::any();
